@@ -378,9 +378,11 @@ Definition parse_assertion_residue (c : cfg) (req : bool) (s : st) (r : response
              end
   end.
 
-(* issue_instant_ok: strictly inside (now - 1 day - slack, now + 1 day + slack) *)
+(* issue_instant_ok: `lower < issued_at < upper` on time tuples; the lower bound comes from
+   datetime.timetuple() (tm_isdst = -1), issued_at from time.gmtime (tm_isdst = 0), so equality
+   with the lower bound compares as "less": the window is [now - 1 day - slack, now + 1 day + slack) *)
 Definition issue_instant_ok (c : cfg) (t : Z) : bool :=
-  (now c - 86400 - slack c <? t) && (t <? now c + 86400 + slack c).
+  (now c - 86400 - slack c <=? t) && (t <? now c + 86400 + slack c).
 
 Definition verify_in_of (c : cfg) (r : response) : verify_in :=
   {| id_mismatch := false;                       (* AuthnResponse: request_id = 0 *)
